@@ -4,7 +4,7 @@ import json, subprocess, re
 log = subprocess.run(['git', '-C', '/repo', 'log', '--format=%h %s'], stdout=subprocess.PIPE, text=True).stdout.splitlines()
 subj = {'D1': 'equal-time', 'D2': 'partial message header', 'D3': 'instead of panicking', 'D4': 'Stat and Backup rebuild', 'D5': 'Get(OffsetNewest)',
         'D6': 'skips an empty head', 'D7': 'never roll over', 'D8': 'index file is missing no longer fails', 'K1': 'create the new head',
-        'K3': 'data race reading', 'K4': 'stale .recover', 'K5': 'through a temp file', 'K6': 'stale head reader', 'D9': 'message that is too big', 'D10': 'empty directory keeps answering'}
+        'K3': 'data race reading', 'K4': 'stale .recover', 'K5': 'through a temp file', 'K6': 'stale head reader', 'D9': 'message that is too big', 'D10': 'empty directory keeps answering', 'K7': 'still being appended'}
 def h(sub):
     for l in log:
         if sub in l and ' fix:' in ' ' + l:
